@@ -2,9 +2,11 @@ package main
 
 import (
 	"fmt"
+	"go/constant"
 	"go/token"
 	"go/types"
 	"strings"
+	"unicode"
 
 	"golang.org/x/tools/go/ssa"
 )
@@ -2535,4 +2537,241 @@ func ruleMuxSideState(r *Run) {
 	if bad == 0 {
 		r.ok("registration/side-state", token.NoPos, "no registration step records state in a Mux-held container before a step that can fail (%d such writes)", n)
 	}
+}
+
+func init() {
+	register(&Rule{Name: "TOKEN-CHARSET", Floor: 1,
+		Doc: "the character class the Accept / Accept-Encoding parser uses for tokens, evaluated for every ASCII character (a pure classifier function is interpreted; a table filled by an init loop is computed by interpreting that loop), contains RFC 7230's tchar: a media type such as application/problem+json must not be cut at the '+'",
+		Run: ruleTokenCharset})
+}
+
+// evalSmall evaluates integer/boolean SSA expressions over an environment (constants, conversions, comparisons,
+// arithmetic and bit operations, strings.ContainsRune on a constant string).
+func evalSmall(env map[ssa.Value]int64, v ssa.Value, depth int) (int64, bool) {
+	if depth > 40 {
+		return 0, false
+	}
+	if k, ok := env[v]; ok {
+		return k, true
+	}
+	switch x := v.(type) {
+	case *ssa.Const:
+		if x.Value == nil {
+			return 0, false
+		}
+		if x.Value.Kind() == constant.Bool {
+			if constant.BoolVal(x.Value) {
+				return 1, true
+			}
+			return 0, true
+		}
+		return constInt(x)
+	case *ssa.Convert:
+		return evalSmall(env, x.X, depth+1)
+	case *ssa.ChangeType:
+		return evalSmall(env, x.X, depth+1)
+	case *ssa.UnOp:
+		if x.Op == token.NOT {
+			k, ok := evalSmall(env, x.X, depth+1)
+			return 1 - k, ok
+		}
+	case *ssa.BinOp:
+		a, ok1 := evalSmall(env, x.X, depth+1)
+		b, ok2 := evalSmall(env, x.Y, depth+1)
+		if !ok1 || !ok2 {
+			return 0, false
+		}
+		bl := func(t bool) (int64, bool) {
+			if t {
+				return 1, true
+			}
+			return 0, true
+		}
+		switch x.Op {
+		case token.LSS:
+			return bl(a < b)
+		case token.LEQ:
+			return bl(a <= b)
+		case token.GTR:
+			return bl(a > b)
+		case token.GEQ:
+			return bl(a >= b)
+		case token.EQL:
+			return bl(a == b)
+		case token.NEQ:
+			return bl(a != b)
+		case token.ADD:
+			return a + b, true
+		case token.SUB:
+			return a - b, true
+		case token.AND:
+			return a & b, true
+		case token.OR:
+			return a | b, true
+		case token.SHL:
+			return a << uint(b), true
+		}
+	case *ssa.Call:
+		switch calleeName(x) {
+		case "strings.ContainsRune":
+			if s, ok := constString(x.Call.Args[0]); ok {
+				if k, ok := evalSmall(env, x.Call.Args[1], depth+1); ok {
+					if strings.ContainsRune(s, rune(k)) {
+						return 1, true
+					}
+					return 0, true
+				}
+			}
+		case "strings.IndexByte", "strings.IndexRune":
+			if s, ok := constString(x.Call.Args[0]); ok {
+				if k, ok := evalSmall(env, x.Call.Args[1], depth+1); ok {
+					return int64(strings.IndexRune(s, rune(k))), true
+				}
+			}
+		}
+	}
+	return 0, false
+}
+
+// tableByInitLoop computes tbl[c] for a package-level table that an init function fills in a loop
+// `for c := …; …; c++ { …; tbl[c] = v }`, by interpreting one round of the loop with c fixed.
+func (p *Program) tableByInitLoop(tbl *ssa.Global, c int64) (int64, bool) {
+	for _, fn := range p.ModuleFuncs() {
+		if !strings.HasPrefix(fn.Name(), "init") {
+			continue
+		}
+		var store *ssa.Store
+		eachInstr(fn, func(in ssa.Instruction) {
+			if st, ok := in.(*ssa.Store); ok {
+				if ia, ok := st.Addr.(*ssa.IndexAddr); ok && ia.X == ssa.Value(tbl) {
+					store = st
+				}
+			}
+		})
+		if store == nil {
+			continue
+		}
+		idx, ok := store.Addr.(*ssa.IndexAddr).Index.(*ssa.Phi)
+		if !ok {
+			return 0, false
+		}
+		env := map[ssa.Value]int64{idx: c}
+		// enter the round: the loop test in the phi's block decides the first body block
+		b := idx.Block()
+		var prev *ssa.BasicBlock
+		for steps := 0; steps < 200; steps++ {
+			for _, in := range b.Instrs {
+				switch x := in.(type) {
+				case *ssa.Phi:
+					if x == idx {
+						continue
+					}
+					for i, pb := range b.Preds {
+						if pb == prev {
+							k, ok := evalSmall(env, x.Edges[i], 0)
+							if !ok {
+								return 0, false
+							}
+							env[x] = k
+						}
+					}
+				case *ssa.Store:
+					if x == store {
+						return evalSmall(env, x.Val, 0)
+					}
+					return 0, false
+				case *ssa.If:
+					k, ok := evalSmall(env, x.Cond, 0)
+					if !ok {
+						return 0, false
+					}
+					prev = b
+					if k != 0 {
+						b = b.Succs[0]
+					} else {
+						b = b.Succs[1]
+					}
+				case *ssa.Jump:
+					prev, b = b, b.Succs[0]
+				case *ssa.Return:
+					return 0, false
+				}
+			}
+		}
+		return 0, false
+	}
+	return 0, false
+}
+
+func ruleTokenCharset(r *Run) {
+	p := r.P
+	ets := p.Func("expectTokenSlash")
+	if ets == nil {
+		r.missing("func expectTokenSlash")
+		return
+	}
+	// how a byte is classed as a token byte inside expectTokenSlash's region: tbl[b] & mask, or classifier(b)
+	var tbl *ssa.Global
+	var mask int64
+	var classifier *ssa.Function
+	p.eachInstrRegion(ets, func(g *ssa.Function, in ssa.Instruction) {
+		switch x := in.(type) {
+		case *ssa.BinOp:
+			if x.Op != token.AND {
+				return
+			}
+			if u, ok := x.X.(*ssa.UnOp); ok && u.Op == token.MUL {
+				if ia, ok := u.X.(*ssa.IndexAddr); ok {
+					if gl, ok := ia.X.(*ssa.Global); ok {
+						if k, ok := constInt(x.Y); ok {
+							tbl, mask = gl, k
+						}
+					}
+				}
+			}
+		case *ssa.Call:
+			callee := x.Call.StaticCallee()
+			if callee == nil || !p.InModule(callee) || len(callee.Params) != 1 || callee.Signature.Results().Len() != 1 {
+				return
+			}
+			if bt, ok := callee.Signature.Results().At(0).Type().Underlying().(*types.Basic); ok && bt.Kind() == types.Bool {
+				if pt, ok := callee.Params[0].Type().Underlying().(*types.Basic); ok && pt.Info()&types.IsInteger != 0 && g == ets {
+					classifier = callee
+				}
+			}
+		}
+	})
+	isTok := func(c int64) (bool, bool) {
+		if tbl != nil {
+			v, ok := p.tableByInitLoop(tbl, c)
+			return v&mask != 0, ok
+		}
+		if classifier != nil {
+			v, ok := interpPureP(p, classifier, c, 0)
+			return v != 0, ok
+		}
+		return false, false
+	}
+	if tbl == nil && classifier == nil {
+		r.undecided("expectTokenSlash/token-class", ets.Pos(), "no token class (table & mask, or classifier function) found in expectTokenSlash")
+		return
+	}
+	var missing []string
+	for c := int64(0x21); c < 0x7f; c++ {
+		ch := rune(c)
+		must := unicode.IsLetter(ch) || unicode.IsDigit(ch) || strings.ContainsRune("!#$%&'*+-.^_`|~", ch)
+		if !must {
+			continue
+		}
+		ok, decided := isTok(c)
+		if !decided {
+			r.undecided("expectTokenSlash/token-class", ets.Pos(), "the token class could not be evaluated for %q", ch)
+			return
+		}
+		if !ok {
+			missing = append(missing, fmt.Sprintf("%q", ch))
+		}
+	}
+	r.check(len(missing) == 0, "expectTokenSlash/token-class", ets.Pos(), "every RFC 7230 tchar is a token character (evaluated for all ASCII characters)",
+		"the token class of the Accept parser lacks "+strings.Join(missing, " ")+": a media range containing it (application/problem+json) is cut there and the rest of the Accept line is dropped - the reply goes out in the request's own type although the header admits a registered codec")
 }
